@@ -7,7 +7,7 @@ about the generator half of `_compile_route`, about `quote_path_segment` and abo
                    statement (bytes decoded first / remainder branch / plain branch / `gen % newdict`)
  * traversal.py    PATH_SEGMENT_SAFE, PATH_SAFE; the body of `quote_path_segment` (str() of other objects,
                    `_segment_cache[(segment, safe)]` read and written, `url_quote(text_(segment, 'utf-8'), safe)`)
- * url.py          `_join_elements` (its `safe`), `_quoted_script_name` (its `safe`), the tail of `route_url`
+ * url.py          `_join_elements` (uncached wrapper: elements → texts) and `_join_text_elements` (`lru_cache`, its `safe`), `_quoted_script_name` (its `safe`), the tail of `route_url`
                    (`path = route.generate(kw)`, the suffix rule, `app_url + path + suffix + qs + anchor`) and
                    `route_path` (`kw['_app_url'] = self._quoted_script_name()`)
 
@@ -192,6 +192,13 @@ def route_url(self, route_name, *elements, **kw):
     return app_url + path + suffix + qs + anchor
 '''
 
+JOIN_WRAPPER_SRC = '''
+def _join_elements(elements):
+    return _join_text_elements(
+        tuple([s if s.__class__ in (str, bytes) else str(s) for s in elements])
+    )
+'''
+
 ROUTE_PATH_SRC = '''
 def route_path(self, route_name, *elements, **kw):
     kw['_app_url'] = self._quoted_script_name()
@@ -219,7 +226,7 @@ def _ordered_walk(node):
 def generate(src_root):
     flags = {k: False for k in ('pctDoubled', 'placeholderTpl', 'formatsTemplate', 'bytesDecoded', 'restPerElement',
                                 'plainStringified', 'cacheKeyedBySafe', 'quoteSegmentShape', 'assemblyShape',
-                                'elemCacheLru')}
+                                'elemCacheLru', 'elemKeyIsText')}
     sets = {k: None for k in ('valSafe', 'litSafePrefix', 'litSafeInner', 'elemSafe', 'scriptSafe')}
     notes = []
     try:
@@ -330,28 +337,36 @@ def generate(src_root):
 
         # ---- url.py
         try:
-            je = copy.deepcopy(_find_func(url, '_join_elements'))
+            # since 9c714c3: an uncached wrapper that turns the elements into texts, and the cached joiner
+            wrapper = _find_func(url, '_join_elements')
+            je = copy.deepcopy(_find_func(url, '_join_text_elements'))
             calls = [n for n in ast.walk(je) if isinstance(n, ast.Call) and getattr(n.func, 'id', None) == 'quote_path_segment']
-            want = ast.dump(ast.parse("'/'.join([quote_path_segment(s, safe=X) for s in elements])").body[0].value)
             ret = je.body[-1]
-            if len(calls) != 1 or not isinstance(ret, ast.Return):
-                raise Unknown('_join_elements has another shape')
+            if len(calls) != 1 or not isinstance(ret, ast.Return) or len(_strip_doc(list(je.body))) != 1:
+                raise Unknown('_join_text_elements has another shape')
             c = calls[0]
             probe = ast.parse("'/'.join([quote_path_segment(s, safe=X) for s in elements])").body[0].value
-            # replace the safe expression by X for the comparison
             saved = [k.value for k in c.keywords if k.arg == 'safe']
             if len(saved) != 1:
-                raise Unknown('_join_elements: no safe= keyword')
+                raise Unknown('_join_text_elements: no safe= keyword')
             sets['elemSafe'] = _bytes_of(ev_u(saved[0]))
             for k in c.keywords:
                 if k.arg == 'safe':
                     k.value = ast.Name(id='X', ctx=ast.Load())
             r = _Rename(_bound_names(je)); rp = _Rename({'s', 'elements'})
-            if ast.dump(r.visit(ret.value)) != ast.dump(rp.visit(probe)):
+            for a in je.args.args:
+                r._nm(a.arg)
+            rp._nm('elements')
+            if len(je.args.args) != 1 or ast.dump(r.visit(ret.value)) != ast.dump(rp.visit(probe)):
                 sets['elemSafe'] = None
-                raise Unknown('_join_elements is not a per-element quote joined with /')
-            flags['elemCacheLru'] = any(isinstance(d, ast.Call) and getattr(d.func, 'id', None) == 'lru_cache'
-                                        for d in je.decorator_list)
+                raise Unknown('_join_text_elements is not a per-element quote joined with /')
+            flags['elemCacheLru'] = (any(isinstance(d, ast.Call) and getattr(d.func, 'id', None) == 'lru_cache'
+                                         for d in je.decorator_list) and not wrapper.decorator_list)
+            wa, ws = _norm_fn(wrapper)
+            ka, ks = _norm_src(JOIN_WRAPPER_SRC)
+            flags['elemKeyIsText'] = wa == ka and ws == ks
+            if not flags['elemKeyIsText']:
+                notes.append('_join_elements does not key the cache on the elements\' texts')
         except Unknown as e:
             notes.append('_join_elements: %s' % e)
         try:
@@ -399,7 +414,7 @@ def generate(src_root):
     except (OSError, SyntaxError, Unknown) as e:
         notes.append('source not readable: %s' % e)
 
-    recognised = all(v is not None for v in sets.values()) and all(flags[k] for k in flags if k != 'elemCacheLru')
+    recognised = all(v is not None for v in sets.values()) and all(flags.values())
     for k in sets:
         if sets[k] is None:
             sets[k] = POISON
@@ -461,14 +476,18 @@ def quoteSegmentShape : Bool := %s
 unless the path ends with one; `route_path` sets `_app_url` to the quoted script name -/
 def assemblyShape : Bool := %s
 
-/-- `_join_elements` is wrapped in `lru_cache` (the recorded finding F-C06b lives there) -/
+/-- `_join_text_elements` (the per-element quoting) is wrapped in `lru_cache`, `_join_elements` itself is not -/
 def elemCacheLru : Bool := %s
+
+/-- `_join_elements` = `_join_text_elements(tuple([s if s.__class__ in (str, bytes) else str(s) for s in elements]))`:
+the cache key is the elements' texts (9c714c3; the older shape, keyed on the objects, is not recognised) -/
+def elemKeyIsText : Bool := %s
 
 end Pyr.Gen.C06
 ''' % (b(recognised), lst(sets['valSafe']), lst(sets['litSafePrefix']), lst(sets['litSafeInner']), lst(sets['elemSafe']),
        lst(sets['scriptSafe']), b(flags['pctDoubled']), b(flags['placeholderTpl']), b(flags['formatsTemplate']),
        b(flags['bytesDecoded']), b(flags['restPerElement']), b(flags['plainStringified']), b(flags['cacheKeyedBySafe']),
-       b(flags['quoteSegmentShape']), b(flags['assemblyShape']), b(flags['elemCacheLru']))
+       b(flags['quoteSegmentShape']), b(flags['assemblyShape']), b(flags['elemCacheLru']), b(flags['elemKeyIsText']))
     return {'PyramidModel/Gen/C06.lean': text}
 
 
